@@ -100,7 +100,7 @@ def _body(c, stats: Stats, tier='quick'):
 
 
 def shard(stats: Stats, shard_i, nshards, seed, tier):
-    n = {'quick': 2, 'thorough': 40}[tier]
+    n = {'quick': 2, 'thorough': 12}[tier]
     common.run_given(stats, seed, n, batches(), lambda c, s: body(c, s, tier), shrink=False)
 
 
